@@ -43,3 +43,25 @@ def jacSpec (par : Nat) (bits : Nat) (reduced : List Rat) :
   .ok (f, cols)
 
 end QSP
+
+namespace QSP
+
+/-- the value part of `jacSpec` alone (one product instead of `2d+1`) -/
+def jacF (par : Nat) (bits : Nat) (reduced : List Rat) : Except Err (List Rat) := do
+  let d := reduced.length
+  let full := layout (par : Int) reduced
+  let pairs := (enclList bits full).map Encl.pair
+  let g ← LA.fromAngles pairs
+  imCheb par d g
+
+/-- column `j` of `jacSpec` alone -/
+def jacCol (par : Nat) (bits : Nat) (reduced : List Rat) (j : Nat) : Except Err (List Rat) := do
+  let d := reduced.length
+  let full := layout (par : Int) reduced
+  let pairs := (enclList bits full).map Encl.pair
+  let parts ← (positions par d j).mapM fun (pos, k) => do
+    let gj ← LA.fromAngles (pairs.set pos (derivPair (pairs.getD pos (1, 0)) k))
+    imCheb par d gj
+  .ok (parts.foldl addLists (List.replicate d 0))
+
+end QSP
